@@ -51,7 +51,10 @@ Close == [kind : {"closerace"}, loss : {"none"}, park : {"none"}, wpark : {"none
 Directed == {[kind |-> "stalereader", loss |-> "cut", park |-> "none", wpark |-> "none", during |-> <<>>, after |-> "stay"],
              [kind |-> "latecancel", loss |-> "down", park |-> "none", wpark |-> "none", during |-> <<>>, after |-> "up"],
              [kind |-> "earlyreply", loss |-> "redial", park |-> "none", wpark |-> "none", during |-> <<>>, after |-> "stay"],
-             [kind |-> "earlyreply", loss |-> "plain", park |-> "none", wpark |-> "none", during |-> <<>>, after |-> "stay"]}
+             [kind |-> "earlyreply", loss |-> "plain", park |-> "none", wpark |-> "none", during |-> <<>>, after |-> "stay"],
+             \* nestedcall (no redial; replayed by the check of C02 only): the server calls a handler of this side, which calls the
+             \* server back on its own session and waits; the connection is then lost: the nested call is a call in flight
+             [kind |-> "nestedcall", loss |-> "cut", park |-> "none", wpark |-> "none", during |-> <<>>, after |-> "stay"]}
 
 Has(c, x) == \E i \in 1..Len(c.during) : c.during[i] = x
 OK(c) ==
@@ -62,7 +65,7 @@ OK(c) ==
         /\ (c.park \in {"redial.failed", "rd.redialfailed"} => c.loss = "down" \/ Has(c, "hookbad")))   \* a round only fails without a server or with a rejecting hook
 \* the server was reachable (and the dial hook accepting) during the whole scenario
 AlwaysUp(c) == c.loss # "down" /\ ~Has(c, "hookbad")
-Closed(c)   == c.kind \in {"closerace", "earlyreply"} \/ Has(c, "close")
+Closed(c)   == c.kind \in {"closerace", "earlyreply", "nestedcall"} \/ Has(c, "close")
 
 VARIABLES c, done
 vars == <<c, done>>
